@@ -40,7 +40,7 @@ EmitShape == LET i == ((gi - 1) \div 2) + 1
                  k == KeySeq[((gi - 1) % 2) + 1]
                  sh == ShapeSeq[i]
                  wire == Wire(sh.req)
-             IN (i <= NShapes /\ (i + Seed) % Stride = 0) =>
+             IN (i <= NShapes /\ ((i + Seed) % Stride = 0 \/ sh \in CoreShapes)) =>
                   /\ PrintT(<<"CASE", ToJson(Case(gi * 4, sh, k, "ok", Framings(Len(wire))))>>)
                   /\ (sh.tags.m = "GET" /\ sh.tags.cl = "absent" /\ sh.tags.extra = "none") =>
                         PrintT(<<"CASE", ToJson(Case(gi * 4 + 1, sh, k, "uiBusy", <<<<Len(wire)>>, <<3, Len(wire) - 3>>>>))>>)
